@@ -114,6 +114,12 @@ pub fn check(sc: &Scenario, out: &RunOutput) -> OracleResult {
             }
             X::Snap(s) => {
                 in_rto_mode = s.rto_retransmissions > 0;
+                // the acknowledgement that ends a recovery episode is not a duplicate: counting
+                // starts afresh after it (RFC 6582 full acknowledgement)
+                if recovering && !s.recovering {
+                    plain_dups = 0;
+                    sack_in_row = 0;
+                }
                 recovering = s.recovering;
                 last_flight = s.flight_size;
                 if s.finished.is_some() && task_over.is_none() {
